@@ -38,6 +38,11 @@ pub fn author_index(id: &AuthorId, n: u8) -> Option<u8> {
 
 pub const K5: [&[u8]; 5] = [b"", b"a", b"a\xff", b"ab", b"b"];
 pub const K7: [&[u8]; 7] = [b"", b"a", b"a\xff", b"ab", b"b", b"\xff", b"\xff\xff"];
+/// K7 plus a key with a run of two 0xFF bytes after a non-0xFF byte (its prefix successor must
+/// drop the whole run) and the key that a carrying increment would wrongly reach ("b\x00").
+pub const K9: [&[u8]; 9] = [
+    b"", b"a", b"a\xff", b"ab", b"b", b"\xff", b"\xff\xff", b"a\xff\xff", b"b\x00",
+];
 
 #[derive(Debug, Clone, Copy, PartialEq, Eq, Hash, PartialOrd, Ord, Serialize, Deserialize)]
 pub enum Val {
